@@ -146,17 +146,22 @@ def main():
             if pname not in pops:
                 pops[pname] = make_pop(pname, e["date"], as_dict=(pname == "p2"))
             data = pops[pname]
-            targets = conc["targets"][key["targets"]]
+            targets = list(conc["targets"][key["targets"]]) + (["verif_probe"] if key["targets"] == "T2" else [])
             held = {"data": data, "params": e["params"], "functions": e["functions"], "targets": targets}
             before = digest_obj(held)
             exc, dig = "", ""
             # target set T2 is computed with the documented list form [environment functions, user function]
             farg = e["functions"]
             if key["targets"] == "T2":
-                def verif_probe(alter: int) -> float:
-                    return alter * 2.0
+                # a user rule built by a factory: every call gets a NEW function object with the same module and qualified name
+                # but another factor (a function of the call key, so the reference uses the same one)
+                def make_probe(factor):
+                    def verif_probe(alter: int) -> float:
+                        return alter * factor
 
-                farg = [e["functions"], verif_probe]
+                    return verif_probe
+
+                farg = [e["functions"], make_probe({"p1": 2.0, "p2": 3.0}[pname] + (0.5 if key["rounding"] else 0.0) + (0.25 if e["date"] >= "2010" else 0.0))]
             try:
                 res = compute_taxes_and_transfers(data=data, params=e["params"], functions=farg, targets=targets, rounding=bool(key["rounding"]))
                 dig = result_digest(res)
